@@ -1,0 +1,62 @@
+//go:build verif
+
+// Contracts for package banderwagon, read by /verif's govc. Comments only; compiled only under tag "verif".
+
+package banderwagon
+
+// ---- decoding (C06)
+
+//@ func subgroupCheck
+//@ props C06
+//@ prelude field curve
+//@ ensures result == nil <==> fp_legendre(subarg(x)) == 1
+
+//@ func Element.setBytes
+//@ props C06
+//@ prelude field curve bytesint
+//@ let xv = fp_of_int(BEb(buf))
+//@ ensures result == nil <==> (len(buf) == 32 && BEb(buf) < P_MOD && fp_issquare(y2(xv)) && (trusted || fp_legendre(subarg(xv)) == 1))
+//@ ensures result == nil ==> p.inner.X == xv && p.inner.Y * p.inner.Y == y2(xv) && p.inner.Z == fp_one
+//@ ensures result == nil ==> (fp_lexlargest(p.inner.Y) || p.inner.Y == fp_zero)
+//@ ensures result == nil ==> xbytes(buf, p.inner.X)
+//@ ensures result != nil ==> *p == old(*p)
+//@ modifies *p
+
+//@ func Element.SetBytes
+//@ props C06
+//@ prelude field curve bytesint
+//@ let xv = fp_of_int(BEb(buf))
+//@ ensures result == nil <==> (len(buf) == 32 && BEb(buf) < P_MOD && fp_issquare(y2(xv)) && fp_legendre(subarg(xv)) == 1)
+//@ ensures result == nil ==> p.inner.X == xv && p.inner.Y * p.inner.Y == y2(xv) && p.inner.Z == fp_one
+//@ ensures result == nil ==> (fp_lexlargest(p.inner.Y) || p.inner.Y == fp_zero)
+//@ ensures result == nil ==> xbytes(buf, p.inner.X)
+//@ ensures result != nil ==> *p == old(*p)
+//@ modifies *p
+
+//@ func Element.SetBytesUnsafe
+//@ props C06 C19
+//@ prelude field curve bytesint
+//@ let xv = fp_of_int(BEb(buf))
+//@ ensures result == nil <==> (len(buf) == 32 && BEb(buf) < P_MOD && fp_issquare(y2(xv)))
+//@ ensures result == nil ==> p.inner.X == xv && p.inner.Y * p.inner.Y == y2(xv) && p.inner.Z == fp_one
+//@ ensures result != nil ==> *p == old(*p)
+//@ modifies *p
+
+//@ func Element.SetBytesUncompressed
+//@ props C06 C19
+//@ prelude field curve bytesint
+//@ let xv = fp_of_int(BEb(buf[0:32]))
+//@ let yl = lroot(y2(xv))
+//@ ensures !trusted && result == nil ==> len(buf) == 64 && BEb(buf[0:32]) < P_MOD && fp_issquare(y2(xv)) && fp_legendre(subarg(xv)) == 1
+//@ ensures !trusted && result == nil ==> p.inner.X == xv && p.inner.Y == yl && p.inner.Y * p.inner.Y == y2(xv) && p.inner.Z == fp_one
+//@ ensures !trusted && result == nil ==> ybytes(buf, yl) && xbytes(buf, p.inner.X)
+//@ ensures !trusted && len(buf) != 64 ==> result != nil
+//@ ensures !trusted && len(buf) == 64 && BEb(buf[0:32]) >= P_MOD ==> result != nil
+//@ ensures !trusted && len(buf) == 64 && !fp_issquare(y2(xv)) ==> result != nil
+//@ ensures !trusted && len(buf) == 64 && fp_legendre(subarg(xv)) != 1 ==> result != nil
+//@ ensures !trusted && len(buf) == 64 && BEb(buf[0:32]) < P_MOD && fp_issquare(y2(xv)) && !(ybytes(buf, yl)) ==> result != nil
+//@ ensures !trusted && len(buf) == 64 && BEb(buf[0:32]) < P_MOD && fp_issquare(y2(xv)) && fp_legendre(subarg(xv)) == 1 && ybytes(buf, yl) ==> result == nil
+//@ ensures trusted ==> (result == nil <==> len(buf) == 64)
+//@ ensures trusted && result == nil ==> p.inner.X == fp_of_int(BEb(buf[0:32]) % P_MOD) && p.inner.Y == fp_of_int(BEb(buf[32:64]) % P_MOD) && p.inner.Z == fp_one
+//@ ensures result != nil ==> *p == old(*p)
+//@ modifies *p
